@@ -556,3 +556,224 @@ Definition xyz_header_box (h : str) : option (list (option Q)) :=
    sorted by id *)
 Definition lmp_read_rows (rows : list (Z * nat)) (frame n : nat) : list nat * list nat :=
   let '(b, a) := lmp_frame_rows rows frame n in (map snd b, map snd (sort_by fst a)).
+
+(* ------------------------------------------------------------------ F. CP2K section trees
+   (cp2k.py: SectionNode, read_cp2k_input, set_parents, update_node, _add_node, remove_node,
+   dfs_print, update_cp2k_input).  Python keeps the sub-sections in a `set`, so sibling
+   order is arbitrary there; here children are a list in creation order and results are
+   compared modulo sibling order.  Every node carries the number of its creation (its
+   identity).  With the repairs of proposed_fixes/C19_cp2k_dict_data.diff (see C above). *)
+
+Inductive node := Node (nid : nat) (title : str) (setts : list str) (ndata : list str) (kids : list node).
+Definition node_id (n : node) : nat := match n with Node i _ _ _ _ => i end.
+Definition node_title (n : node) : str := match n with Node _ t _ _ _ => t end.
+Definition node_setts (n : node) : list str := match n with Node _ _ s _ _ => s end.
+Definition node_data (n : node) : list str := match n with Node _ _ _ d _ => d end.
+Definition node_kids (n : node) : list node := match n with Node _ _ _ _ k => k end.
+
+Definition c_amp : Z := 38.
+Definition upper (c : Z) : Z := if (97 <=? c) && (c <=? 122) then c - 32 else c.
+Definition s_end : str := [101; 110; 100].          (* "end" *)
+Definition s_END : str := [38; 69; 78; 68; 32].     (* "&END " *)
+Definition s_arrow : str := [45; 62].               (* "->" *)
+
+(* ---- read_cp2k_input: a stack of open sections (innermost first) *)
+Record rd_cp2k := mkR { r_next : nat; r_stack : list node; r_roots : list node }.
+Definition add_kid_top (c : node) (st : list node) (roots : list node) : list node * list node :=
+  match st with
+  | [] => ([], roots ++ [c])
+  | Node i t s d k :: rest => (Node i t s d (k ++ [c]) :: rest, roots)
+  end.
+(* None = the Python code crashes (AttributeError on "&END" without an open section,
+   IndexError on a bare "&") *)
+Definition cp2k_line (st : rd_cp2k) (line : str) : option rd_cp2k :=
+  let l := strip line in
+  match l with
+  | [] => Some st
+  | c :: r =>
+    if c =? c_amp then
+      if is_prefix s_end (map lower r) then
+        match r_stack st with
+        | [] => None
+        | top :: rest => let '(stk, roots) := add_kid_top top rest (r_roots st) in Some (mkR (r_next st) stk roots)
+        end
+      else
+        match tokens r with
+        | [] => None
+        | t :: ss => Some (mkR (S (r_next st)) (Node (r_next st) (map upper t) ss [] [] :: r_stack st) (r_roots st))
+        end
+    else
+      match r_stack st with
+      | [] => Some st
+      | Node i t s d k :: rest => Some (mkR (r_next st) (Node i t s (d ++ [l]) k :: rest) (r_roots st))
+      end
+  end.
+Fixpoint cp2k_lines (st : rd_cp2k) (ls : list str) : option rd_cp2k :=
+  match ls with
+  | [] => Some st
+  | l :: r => match cp2k_line st l with Some st' => cp2k_lines st' r | None => None end
+  end.
+(* sections still open at the end of the file stay in the tree *)
+Fixpoint close_into (c : node) (rest : list node) (roots : list node) : list node :=
+  match rest with
+  | [] => roots ++ [c]
+  | Node i t s d k :: rest' => close_into (Node i t s d (k ++ [c])) rest' roots
+  end.
+Definition close_all (stk : list node) (roots : list node) : list node :=
+  match stk with
+  | [] => roots
+  | top :: rest => close_into top rest roots
+  end.
+Definition cp2k_read (ls : list str) : option (nat * list node) :=
+  match cp2k_lines (mkR 0 [] []) ls with
+  | Some st => Some (r_next st, close_all (r_stack st) (r_roots st))
+  | None => None
+  end.
+
+(* ---- dfs_print / the file written by update_cp2k_input (lines without "\n") *)
+Fixpoint print_node (lvl : nat) (n : node) : list str :=
+  match n with
+  | Node _ t s d k =>
+    let pre := repeat c_sp (2 * lvl) in
+    (pre ++ c_amp :: t ++ (if is_nil s then [] else c_sp :: join_sp s)) ::
+    map (fun l => pre ++ c_sp :: c_sp :: l) d ++
+    flat_map (print_node (S lvl)) k ++
+    [pre ++ s_END ++ t]
+  end.
+Fixpoint cp2k_print (roots : list node) : list str :=
+  match roots with
+  | [] => []
+  | n :: r => print_node 0 n ++ (match r with [] => [] | _ :: _ => [] :: cp2k_print r end)
+  end.
+
+(* ---- set_parents: the dictionary path -> node *)
+Fixpoint join_with (sep : str) (l : list str) : str :=
+  match l with
+  | [] => []
+  | [a] => a
+  | a :: r => a ++ sep ++ join_with sep r
+  end.
+Definition refd := list (str * (nat * list str)).     (* key -> (node id, its settings) *)
+Fixpoint dict_remove {V} (k : str) (d : list (str * V)) : list (str * V) :=
+  match d with
+  | [] => []
+  | (k', v) :: r => if str_eqb k k' then dict_remove k r else (k', v) :: dict_remove k r
+  end.
+Definition dict_set {V} (k : str) (v : V) (d : list (str * V)) : list (str * V) := dict_remove k d ++ [(k, v)].
+(* two sections with the same path are told apart by their settings *)
+Definition ref_add (d : refd) (par : str) (i : nat) (ss : list str) : refd :=
+  match lookup par d with
+  | Some (pi, ps) =>
+    dict_set (par ++ s_arrow ++ join_sp ss) (i, ss)
+      (dict_set (par ++ s_arrow ++ join_sp ps) (pi, ps) (dict_remove par d))
+  | None => dict_set par (i, ss) d
+  end.
+(* nodes in depth-first pre-order with their title paths *)
+Fixpoint walk (path : list str) (n : node) : list (list str * nat * list str) :=
+  match n with
+  | Node i t s _ k => (path ++ [t], i, s) :: flat_map (walk (path ++ [t])) k
+  end.
+Definition cp2k_refs (roots : list node) : refd :=
+  fold_left (fun d e => let '(p, i, s) := e in ref_add d (join_with s_arrow p) i s)
+            (flat_map (walk []) roots) [].
+
+(* ---- tree surgery by node identity *)
+Fixpoint upd_node (i : nat) (g : list str * list str -> list str * list str) (n : node) : node :=
+  match n with
+  | Node j t s d k =>
+    let k' := map (upd_node i g) k in
+    if (j =? i)%nat then let '(s', d') := g (s, d) in Node j t s' d' k' else Node j t s d k'
+  end.
+Fixpoint add_kid (i : nat) (c : node) (n : node) : node :=
+  match n with
+  | Node j t s d k =>
+    let k' := map (add_kid i c) k in
+    if (j =? i)%nat then Node j t s d (k' ++ [c]) else Node j t s d k'
+  end.
+Fixpoint del_node (i : nat) (n : node) : list node :=
+  match n with
+  | Node j t s d k => if (j =? i)%nat then [] else [Node j t s d (flat_map (del_node i) k)]
+  end.
+
+(* target.split("->") *)
+Fixpoint split_sub_fuel (f : nat) (sep s : str) : list str :=
+  match f with
+  | O => [s]
+  | S f' =>
+    match after_sub sep s with
+    | None => [s]
+    | Some r => before_sub sep s :: split_sub_fuel f' sep r
+    end
+  end.
+Definition split_sub (sep s : str) : list str := split_sub_fuel (length s) sep s.
+
+Record cp2k_state := mkT { t_next : nat; t_roots : list node; t_refs : refd }.
+
+(* _add_node; None = KeyError (cannot happen: the parent is created first) *)
+Fixpoint add_node_fuel (f : nat) (target : str) (ss dl : list str) (st : cp2k_state) : option cp2k_state :=
+  match f with
+  | O => None
+  | S f' =>
+    let parts := split_sub s_arrow target in
+    match parts with
+    | [] | [_] =>
+      Some (mkT (S (t_next st)) (t_roots st ++ [Node (t_next st) target ss dl []])
+                (dict_set target (t_next st, ss) (t_refs st)))
+    | _ =>
+      let par := join_with s_arrow (removelast parts) in
+      let st1 := match lookup par (t_refs st) with
+                 | Some _ => Some st
+                 | None => add_node_fuel f' par [] [] st
+                 end in
+      match st1 with
+      | None => None
+      | Some st1 =>
+        match lookup par (t_refs st1) with
+        | None => None
+        | Some (pid, _) =>
+          let c := Node (t_next st1) (last parts []) ss dl [] in
+          Some (mkT (S (t_next st1)) (map (add_kid pid c) (t_roots st1))
+                    (dict_set target (t_next st1, ss) (t_refs st1)))
+        end
+      end
+    end
+  end.
+
+(* one entry of the `update` dictionary.  [u_dict] says whether "data" is a dict
+   ([u_data]) or an already formatted list ([u_lines]). *)
+Record cp2k_upd := mkU {
+  u_target : str; u_setts : list str; u_replace : bool;
+  u_dict : bool; u_data : list (str * option str); u_lines : list str }.
+
+Definition cp2k_update1 (st : cp2k_state) (u : cp2k_upd) : option cp2k_state :=
+  match lookup (u_target u) (t_refs st) with
+  | None =>
+    add_node_fuel (S (length (u_target u))) (u_target u) (u_setts u)
+                  (if u_dict u then cp2k_new_data (u_data u) else u_lines u) st
+  | Some (i, _) =>
+    let g := fun sd : list str * list str =>
+      let '(s, d) := sd in
+      if u_replace u then (u_setts u, if u_dict u then map fst (u_data u) else u_lines u)
+      else (s ++ u_setts u, cp2k_update_data (u_data u) d) in
+    Some (mkT (t_next st) (map (upd_node i g) (t_roots st)) (t_refs st))
+  end.
+Definition cp2k_remove1 (st : cp2k_state) (target : str) : cp2k_state :=
+  match lookup target (t_refs st) with
+  | None => st
+  | Some (i, _) => mkT (t_next st) (flat_map (del_node i) (t_roots st)) (dict_remove target (t_refs st))
+  end.
+Fixpoint cp2k_updates (st : cp2k_state) (us : list cp2k_upd) : option cp2k_state :=
+  match us with
+  | [] => Some st
+  | u :: r => match cp2k_update1 st u with Some st' => cp2k_updates st' r | None => None end
+  end.
+(* update_cp2k_input(template, output, update, remove) on lines *)
+Definition cp2k_apply (ls : list str) (us : list cp2k_upd) (rm : list str) : option (list str) :=
+  match cp2k_read ls with
+  | None => None
+  | Some (next, roots) =>
+    match cp2k_updates (mkT next roots (cp2k_refs roots)) us with
+    | None => None
+    | Some st => Some (cp2k_print (t_roots (fold_left cp2k_remove1 rm st)))
+    end
+  end.
